@@ -123,6 +123,8 @@ func c10(c *core.Check) {
 	r5 := c.Rule("R5", "box-edge sums: an additive expression over margins, paddings and border widths mentions each kind of edge with the same sides (both sides of an axis for all of them, or one side for all of them): a sum with the padding of both sides and twice the same border is a copy-paste slip", 20)
 	sideSumRule(c, r5, "html/layout", map[string]bool{"blocks.go": true, "percentages.go": true, "min_max.go": true, "absolute.go": true, "float.go": true, "replaced.go": true, "preferred.go": true, "tables.go": true, "flex.go": true, "pages.go": true, "backgrounds.go": true, "columns.go": true, "grid.go": true}, 30)
 	sideSumRule(c, r5, "html/boxes", nil, 3)
+	r10 := c.Rule("R10", "box-edge conditions: a boolean condition that tests several kinds of box edges (border, padding, margin) tests each kind on the same sides — the border and the padding that keep a margin from collapsing are those of the margin's own side (CSS 2.1 §8.3.1)", 3)
+	sideCondRule(c, r10, "html/layout", nil, 4)
 	r6 := c.Rule("R6", "no call passes two same-typed arguments under each other's parameter names (swapped arguments): every pair of arguments named after the callee's parameters is aligned with them", 60)
 	argNameRule(c, r6, "html/layout", map[string]bool{"blocks.go": true, "percentages.go": true, "min_max.go": true, "absolute.go": true, "float.go": true, "replaced.go": true, "preferred.go": true, "tables.go": true, "flex.go": true, "grid.go": true, "layout.go": true, "backgrounds.go": true}, 90)
 }
